@@ -350,6 +350,15 @@ def build(spec):
         vol_kw["material"] = fdtdx.Material(**spec["vol_material"])
     if spec.get("vol_material_obj") is not None:
         vol_kw["material"] = spec["vol_material_obj"]
+    if spec.get("vol_poles"):
+        # dispersive volume material from a JSON-able pole list (frequencies given as omega*dt of this scene's time step)
+        poles = []
+        for pl in spec["vol_poles"]:
+            if pl["kind"] == "lorentz":
+                poles.append(fdtdx.LorentzPole(resonance_frequency=pl["w0dt"] / dt, damping=pl["gdt"] / dt, delta_epsilon=pl["de"]))
+            else:
+                poles.append(fdtdx.DrudePole(plasma_frequency=pl["wpdt"] / dt, damping=pl["gdt"] / dt))
+        vol_kw["material"] = fdtdx.Material(permittivity=spec.get("vol_eps_inf", 2.0), dispersion=fdtdx.DispersionModel(poles=tuple(poles)))
     global _EDGES
     _EDGES = None
     if isinstance(grid, fdtdx.RectilinearGrid) and not grid.is_uniform:
